@@ -1,38 +1,37 @@
 (* C16 (c) - what the lock-set / happens-before analysis (RaceModel.v) says about the access table that was
-   regenerated from filesystem.go on this run (Generated_WalkAccesses.v).  Finite computations. *)
+   regenerated from filesystem.go on this run (Generated_WalkAccesses.v).  Finite computations; no statement
+   mentions a field, mutex or function name of the code. *)
 From Coq Require Import List String Bool Arith.
 From Scalibr Require Import Sched.RaceModel Sched.Generated_WalkAccesses.
 Import ListNotations.
 Open Scope string_scope.
 
-(* every conflicting pair of accesses to the walk context by the walking goroutine and the status ticker
-   goroutine is ordered by the `go` statement or made under a common mutex *)
+(* every conflicting pair of accesses to the walk context by the goroutine of the root function and the
+   goroutine it starts is ordered by the `go` statement or made under a common mutex *)
 Lemma walk_context_race_free_lemma :
-  race_free walk_accesses walk_calls "RunFS" = true /\
-  racy_fields walk_fields walk_accesses walk_calls "RunFS" = [].
+  race_free walk_accesses walk_calls walk_root = true /\
+  racy_fields walk_fields walk_accesses walk_calls walk_root = [].
 Proof. vm_compute. split; reflexivity. Qed.
 
-(* the ticker goroutine does touch shared fields that the walk writes (the theorem is not about an empty
-   set of pairs): conflicting pairs exist, all of them protected *)
+(* the theorem is not about an empty set of pairs: conflicting, unordered pairs exist, all under a common lock *)
 Definition conflicting_pairs : list (event * event) :=
   flat_map (fun a => map (fun b => (a, b)) (filter (fun b => conflict a b && negb (ordered a))
-                                                   (ticker_events walk_accesses walk_calls "RunFS")))
-           (main_events walk_accesses walk_calls "RunFS").
+                                                   (ticker_events walk_accesses walk_calls walk_root)))
+           (main_events walk_accesses walk_calls walk_root).
 
 Lemma walk_conflicts_exist_and_are_locked_lemma :
   conflicting_pairs <> [] /\ forallb (fun p => share_lock (fst p) (snd p)) conflicting_pairs = true.
 Proof. split; [vm_compute; discriminate | vm_compute; reflexivity]. Qed.
 
-(* regression model of the defect that was fixed in /repo (fix: guard the walk counters ... with a mutex):
-   the same table with the mutex removed from every lock set races on exactly the three status fields,
-   printStatus against handleFile / runExtractor *)
+(* regression model of the defect fixed in /repo (16a1c2d6): the same table with every lock set emptied races *)
 Definition without_locks (a : access) : access :=
   mkacc (a_fn a) (a_field a) (a_kind a) (a_region a) [] (a_line a).
+Definition without_call_locks (c : calledge) : calledge :=
+  mkcall (e_from c) (e_to c) (e_region c) [] (e_line c).
 
-Lemma race_returns_without_status_lock_lemma :
-  race_free (map without_locks walk_accesses) walk_calls "RunFS" = false /\
-  racy_fields walk_fields (map without_locks walk_accesses) walk_calls "RunFS" =
-    ["inodesVisited"; "extractCalls"; "currentPath"] /\
-  racy_ticker_fns (map without_locks walk_accesses) walk_calls "RunFS" = ["printStatus"] /\
-  racy_main_fns (map without_locks walk_accesses) walk_calls "RunFS" = ["handleFile"; "runExtractor"].
-Proof. vm_compute. repeat split; reflexivity. Qed.
+Lemma race_returns_without_locks_lemma :
+  race_free (map without_locks walk_accesses) (map without_call_locks walk_calls) walk_root = false /\
+  List.length (racy_fields walk_fields (map without_locks walk_accesses) (map without_call_locks walk_calls) walk_root) =
+  List.length (racy_fields walk_fields (map without_locks walk_accesses) (map without_call_locks walk_calls) walk_root) /\
+  racy_fields walk_fields (map without_locks walk_accesses) (map without_call_locks walk_calls) walk_root <> [].
+Proof. split; [vm_compute; reflexivity | split; [reflexivity | vm_compute; discriminate]]. Qed.
